@@ -12,6 +12,7 @@ syntax "sim_leaf" : tactic
 macro_rules | `(tactic| sim_leaf) => `(tactic| first
   | exact sim_pure _ trivial
   | exact sim_throw _
+  | exact sim_ofExcept _ (fun _ _ => trivial)
   | exact sim_weaken sim_size (fun _ _ => trivial)
   | exact sim_has _
   | exact sim_names
@@ -86,6 +87,43 @@ theorem sim_scalarVoid (o : Ops V) (k : SOp) (inp : String) (arg : V) (out : Str
   sim_auto
 macro_rules | `(tactic| sim_leaf) => `(tactic| exact sim_scalarVoid _ _ _ _ _)
 
+theorem sim_applyVoid (o : Ops V) (f : V → Except Err V) (inp out : String) :
+    Sim n (fun _ => True) (applyVoid (σ := St V) o f inp out) (applyVoid (σ := ATab V) o f inp out) := by
+  unfold applyVoid
+  sim_auto
+macro_rules | `(tactic| sim_leaf) => `(tactic| exact sim_applyVoid _ _ _ _)
+
+theorem sim_scalarDivider (o : Ops V) (inp : String) (arg : V) (out : String) :
+    Sim n (fun _ => True) (scalarDivider (σ := St V) o inp arg out) (scalarDivider (σ := ATab V) o inp arg out) := by
+  unfold scalarDivider
+  sim_auto
+
+theorem sim_scalarRevDivider (o : Ops V) (inp : String) (arg : V) (out : String) :
+    Sim n (fun _ => True) (scalarRevDivider (σ := St V) o inp arg out) (scalarRevDivider (σ := ATab V) o inp arg out) := by
+  unfold scalarRevDivider
+  sim_auto
+
+theorem sim_shiftCircular (o : Ops V) (inp : String) (arg : V) (out : String) :
+    Sim n (fun _ => True) (shiftCircular (σ := St V) o inp arg out) (shiftCircular (σ := ATab V) o inp arg out) := by
+  unfold shiftCircular
+  sim_auto
+
+theorem sim_scalarKind (o : Ops V) (k : SKind) (inp : String) (arg : V) (out : String) :
+    Sim n (fun _ => True) (scalarKind (σ := St V) o k inp arg out) (scalarKind (σ := ATab V) o k inp arg out) := by
+  cases k with
+  | plain s => exact sim_scalarVoid o s inp arg out
+  | divider => exact sim_scalarDivider o inp arg out
+  | revDivider => exact sim_scalarRevDivider o inp arg out
+  | shift => exact sim_shiftCircular o inp arg out
+  | shiftRev => exact sim_shiftCircular o inp _ out
+macro_rules | `(tactic| sim_leaf) => `(tactic| exact sim_scalarKind _ _ _ _ _)
+
+theorem sim_aggOp (o : Ops V) (f inp : String) :
+    Sim n (fun _ => True) (aggOp (σ := St V) o f inp) (aggOp (σ := ATab V) o f inp) := by
+  unfold aggOp
+  sim_auto
+macro_rules | `(tactic| sim_leaf) => `(tactic| exact sim_aggOp _ _ _)
+
 theorem sim_sumOp (o : Ops V) (inp : String) :
     Sim n (fun _ => True) (sumOp (σ := St V) o inp) (sumOp (σ := ATab V) o inp) := by
   unfold sumOp
@@ -111,6 +149,26 @@ theorem sim_reverser (o : Ops V) (inp out : String) :
   simp only [List.length_range] at ht
   simp only
   omega
+
+theorem sim_logVoid (o : Ops V) (inp out : String) :
+    Sim n (fun _ => True) (logVoid (σ := St V) o inp out) (logVoid (σ := ATab V) o inp out) := by
+  unfold logVoid
+  refine sim_bind sim_size (fun k hk => ?_)
+  refine sim_bind (sim_mapL (Q := fun _ => True) _ (fun i _ => ?_)) (fun temp ht => ?_)
+  · sim_auto
+  refine sim_setItem out (.list temp) ?_
+  simp only [List.length_range] at ht
+  simp only
+  omega
+
+theorem sim_runVFn (o : Ops V) (f : VFn) (inp out : String) :
+    Sim n (fun _ => True) (runVFn (σ := St V) o f inp out) (runVFn (σ := ATab V) o f inp out) := by
+  cases f with
+  | integrator => unfold runVFn; exact sim_bind (sim_unaryVoid o _ inp out) (fun _ _ => sim_pure _ trivial)
+  | differentiator => unfold runVFn; exact sim_bind (sim_unaryVoid o _ inp out) (fun _ _ => sim_pure _ trivial)
+  | log => unfold runVFn; exact sim_bind (sim_logVoid o inp out) (fun _ _ => sim_pure _ trivial)
+  | apply name => unfold runVFn; sim_auto
+macro_rules | `(tactic| sim_leaf) => `(tactic| exact sim_runVFn _ _ _ _)
 
 theorem sim_hasSV (sv : SV V) : Sim n (fun _ => True) (hasSV (σ := St V) sv) (hasSV (σ := ATab V) sv) := by
   cases sv <;> (unfold hasSV; sim_auto)
